@@ -31,6 +31,28 @@ def crc16(data):
     return r
 
 
+def take_all(q, n=None):
+    """frames waiting on a queue of the handler, as (id, payload), taken off without blocking — with the one method the
+    library itself uses on its queues (`get`), so that a queue class of the library's own works as well; `n` = at most
+    that many (a snapshot of what was waiting when `n` was read)"""
+    import queue as _q
+    out = []
+    while n is None or len(out) < n:
+        try:
+            f = q.get(block=False)
+        except _q.Empty:
+            break
+        out.append((int(f.fid), bytes(f.data)))
+    return out
+
+
+def waiting(q):
+    try:
+        return q.qsize()
+    except AttributeError:
+        return -1
+
+
 def scripted_comm(chunks, frame_cls=None):
     """the real CommHandler over a scripted link; returns a function stepping the receive-thread body"""
     from nxslib.comm import CommHandler
@@ -57,37 +79,36 @@ def run_real_routed(chunks, has_dev):
     comm, script = scripted_comm(chunks)
     comm._dev = object() if has_dev else None
     for _ in range(200000):
-        had = bool(script)
+        had = len(script)
         before = comm._prev_read
-        n = comm._q.qsize() + comm._q_stream.qsize()
+        n = waiting(comm._q) + waiting(comm._q_stream)
         comm._recv_thread()
-        if not had and not script and comm._prev_read == before and comm._q.qsize() + comm._q_stream.qsize() == n:
+        if len(script) == had and comm._prev_read == before and waiting(comm._q) + waiting(comm._q_stream) == n:
+            # nothing read, nothing consumed, nothing delivered: the receive body is a function of (carry-over buffer,
+            # link), so every further call does the same — quiescent (script exhausted) or stalled (reads left unread)
             break
-    out = []
-    for q in (comm._q, comm._q_stream):
-        fr = []
-        while not q.empty():
-            f = q.get_nowait()
-            fr.append((int(f.fid), bytes(f.data)))
-        out.append(fr)
+    out = [take_all(q) for q in (comm._q, comm._q_stream)]
     comm._dev = None
     return out
 
 
-def run_real(chunks, frame_cls=None, limit=200000):
+def run_real(chunks, frame_cls=None, limit=200000, stall=None):
+    """frames delivered by the receive-thread body over the scripted reads.  `stall` (a list) receives the number of
+    scripted reads the receiver never asked for, when it stopped reading although reads were left: a call of the body
+    that reads nothing, consumes nothing and delivers nothing is a fixed point (the body is a function of the carry-over
+    buffer and the link), so the receiver is stuck there for ever and everything behind it is lost."""
     comm, script = scripted_comm(chunks, frame_cls)
     frames = []
     for _ in range(limit):
-        had = bool(script)
+        had = len(script)
         before = comm._prev_read
         comm._recv_thread()
-        got = False
-        for q in (comm._q, comm._q_stream):
-            while not q.empty():
-                f = q.get_nowait()
-                frames.append((int(f.fid), bytes(f.data)))
-                got = True
-        if not got and not had and not script and comm._prev_read == before:
+        new = take_all(comm._q) + take_all(comm._q_stream)
+        frames += new
+        got = bool(new)
+        if not got and len(script) == had and comm._prev_read == before:
+            if script and stall is not None:
+                stall.append(len(script))
             break
     else:
         raise RuntimeError("receive body did not become quiescent")
@@ -207,14 +228,26 @@ def delay_cases(rng, T):
 
 
 # ---- public level (REVIEW C03-3): CommHandler.stream_data() over a scripted link -------------------------------------
-def pub_session(layout, script_reads, seed=None, stale=None, info=None):
+def pub_budget(script_reads):
+    """virtual seconds an application waits for the receive thread to work through the scripted reads: the link's own
+    time (an idle read lasts 0.01 s) plus a minute"""
+    return 60.0 + 0.02 * len(script_reads)
+
+
+def pub_session(layout, script_reads, seed=None, stale=None, info=None, consumer="poll"):
     """The real CommHandler connects (virtual-time runtime, reference device) to a device with the channel `layout`;
     then the link returns the scripted reads (b"" = an idle read) and the application polls stream_data() until the
     script is exhausted and nothing more comes.  Returns (canonical stream_data() results, reads seen by the client
     after the handshake, the client's carry-over buffer when the script started).
     With `stale` (bytes): after the first connect the device emits `stale` (e.g. the beginning of a frame), the client
     reads it, disconnects, and connects again with the SAME handler; the script then runs in the second session.
-    `info` receives requests written / virtual seconds of both connects and the outcome of the second one."""
+    `info` receives requests written / virtual seconds of both connects and the outcome of the second one; `timed_out`
+    when the application gave up after `pub_budget` virtual seconds with scripted reads still unread (the receive thread
+    no longer reads); `disconnect` when disconnect() did not come back.
+    `consumer`: "poll" = the application polls stream_data() from the start; "lazy" = it does something else until the
+    link has handed over all scripted reads (at most `pub_budget` virtual seconds) and polls then; "none" = it never
+    polls: after the same wait the frames waiting on the response queue and on the stream queue are taken off (once,
+    without blocking) and returned as `info["queues"]` = ([(id, payload)…], [(id, payload)…])."""
     import vsim
     import refdev
     import streamglue as sg
@@ -292,7 +325,20 @@ def pub_session(layout, script_reads, seed=None, stale=None, info=None):
         link.script = list(script_reads)
         out = []
         nones = 0
-        for _ in range(100000):
+        t_start = sim.now
+        budget = pub_budget(script_reads)
+        if consumer != "poll":
+            sim.block(lambda: not link.script, budget, "application-busy")
+            sim.block(lambda: False, 1.0, "application-busy")
+        if consumer == "none":
+            # what is waiting NOW (taking frames off may let a receive thread that was blocked on a full queue go on)
+            counts = [waiting(q) for q in (comm._q, comm._q_stream)]
+            qs = [take_all(q, n if n >= 0 else None) for q, n in zip((comm._q, comm._q_stream), counts)]
+            if info is not None:
+                info["queues"] = tuple(qs)
+        for _ in range(100000 if consumer != "none" else 0):
+            if sim.now - t_start > 2 * budget:
+                break
             try:
                 ds = comm.stream_data()
             except Exception as e:      # noqa: BLE001 - reported as the result of that call
@@ -306,14 +352,43 @@ def pub_session(layout, script_reads, seed=None, stale=None, info=None):
                 continue
             nones = 0
             out.append(ds)
+        if info is not None:
+            info["virtual_s"] = round(sim.now - t_start, 1)
+        if link.script and info is not None:
+            info["timed_out"] = (f"{len(link.script)} of {len(script_reads)} scripted reads still unread after "
+                                 f"{sim.now - t_start:.0f} virtual seconds: the receive thread no longer reads")
         res["seen"] = list(link.seen)
-        comm.disconnect()
+        try:
+            comm.disconnect()
+        except Exception as e:          # noqa: BLE001 - e.g. the receive thread is blocked for ever and cannot be joined
+            if info is not None:
+                info["disconnect"] = type(e).__name__ + ": " + str(e)[:200]
         return out
 
-    r, sim = vsim.run_sim(scenario, seed=seed, time_limit=100000.0, real_limit=60.0)
+    # spin limit: the longest stretch of work between two clock ticks in these sessions is one read of ~100 kB rescanned
+    # byte by byte (about 3 primitive operations per byte); a receive thread that loops without reading is reported
+    # after a million operations (seconds) instead of the simulator's default five millions (a minute)
+    r, sim = vsim.run_sim(scenario, seed=seed, time_limit=100000.0, real_limit=60.0, spin_limit=1000000)
     if isinstance(r, BaseException):
         raise r
     return r, res["seen"], res["carry"]
+
+
+def sim_verdict(e):
+    """the simulator's verdicts about a session that does not come to an end (a thread loops without the clock
+    advancing, nobody can run, virtual / real time budget exhausted)"""
+    return type(e).__name__ in ("Spin", "Deadlock", "TimeLimit", "RealTimeLimit")
+
+
+def stuck_violation(e, layout, reads, consumer, nwant):
+    stream = b"".join(reads)
+    return {"key": "public-level", "what": "a session of the real CommHandler over a scripted link (receive thread running, "
+            + CONSUMER_TEXT[consumer] + ") does not come to an end: the frames on the line are never all delivered",
+            "expected": f"{nwant} frames delivered and the session over within {pub_budget(reads):.0f} virtual seconds",
+            "observed": f"{type(e).__name__}: {str(e)[:400]}", "stuck": True,
+            "layout": layout_str(layout), "stream_len": len(stream), "frames_on_the_line": describe(stream),
+            "reads_shape": reads_shape(reads), "reads": ",".join(hexs(c) for c in reads)[:4000],
+            "case": pub_line(layout, reads, consumer)}
 
 
 PUB_TYPES = [2, 3, 4, 5, 6, 7, 8, 9, 10, 11]
@@ -363,8 +438,8 @@ def layout_str(layout):
     return ",".join(f"{t}:{v}:{m}" for t, v, m in layout)
 
 
-def pub_line(layout, reads):
-    return "pub " + layout_str(layout) + " " + ",".join(hexs(c) for c in reads)
+def pub_line(layout, reads, consumer="poll"):
+    return PUB_OP_OF[consumer] + " " + layout_str(layout) + " " + ",".join(hexs(c) for c in reads)
 
 
 def pub_expected(layout, stream):
@@ -395,10 +470,10 @@ def pub_expected(layout, stream):
     return out
 
 
-def pub_real(layout, reads, stale=None, info=None):
+def pub_real(layout, reads, stale=None, info=None, consumer="poll"):
     """canonical results of the real stream_data() calls for the scripted reads (+ reads seen, carry-over)"""
     import streamglue as sg
-    res, seen, carry = pub_session(layout, reads, stale=stale, info=info)
+    res, seen, carry = pub_session(layout, reads, stale=stale, info=info, consumer=consumer)
     exp = pub_expected(layout, carry + b"".join(reads)) or []
     out = []
     for k, ds in enumerate(res):
@@ -411,23 +486,201 @@ def pub_real(layout, reads, stale=None, info=None):
     return out, seen, carry
 
 
-def pub_oracle(layout, reads):
+FRAME_NAMES = {1: "STREAM", 2: "CMNINFO", 3: "CHINFO", 4: "ACK"}
+
+
+def describe(stream):
+    """the frames of the reference scan of `stream`, run-length encoded: 'ACK x17, STREAM x1'"""
+    runs = []
+    for fid, _ in ref_scan(stream):
+        nm = FRAME_NAMES.get(fid, f"id{fid}")
+        if runs and runs[-1][0] == nm:
+            runs[-1][1] += 1
+        else:
+            runs.append([nm, 1])
+    return ", ".join(f"{nm} x{k}" for nm, k in runs)[:600] or "no frame"
+
+
+def reads_shape(reads):
+    sizes = [len(c) for c in reads]
+    return (f"{len(reads)} reads ({sizes.count(0)} idle), sizes " + ",".join(map(str, sizes[:16]))
+            + ("…" if len(sizes) > 16 else ""))
+
+
+PUB_OPS = {"pub": "poll", "publazy": "lazy", "pubq": "none"}
+PUB_OP_OF = {v: k for k, v in PUB_OPS.items()}
+CONSUMER_TEXT = {"poll": "the application polls stream_data() all along",
+                 "lazy": "the application starts polling stream_data() once the link has gone quiet",
+                 "none": "nobody takes frames off the queues while the link delivers"}
+
+
+def pub_oracle(layout, reads, consumer="poll"):
+    return pub_judge(layout, reads, consumer)[0]
+
+
+def pub_judge(layout, reads, consumer="poll"):
+    """public level, receive thread running: the results of stream_data(), call by call, are the STREAM frames of the
+    reference scan of the bytes received, decoded — all of them, within `pub_budget` virtual seconds, whatever else
+    (control frames nobody asked for, in any number) is on the line between them.
+    Returns (violation | None, canonical results, reads seen by the client, carry-over at the start of the script)."""
+    if consumer == "none":
+        return pubq_judge(layout, reads)
     exp = pub_expected(layout, b"".join(reads))
     if exp is None:
-        return None
-    got, seen, carry = pub_real(layout, reads)
-    if carry:
-        return None
+        return None, None, [], b""
+    info = {}
     want = [w for _, w in exp]
+    try:
+        got, seen, carry = pub_real(layout, reads, info=info, consumer=consumer)
+    except Exception as e:      # noqa: BLE001
+        if sim_verdict(e) and want:
+            return stuck_violation(e, layout, reads, consumer, len(want)), None, [], b""
+        raise
+    if carry:
+        return None, got, seen, carry
     if got != want:
         k = next((i for i, (a, b) in enumerate(zip(got, want)) if a != b), min(len(got), len(want)))
-        return {"key": "public-level", "what": "CommHandler.stream_data() over a scripted link does not return the STREAM "
-                "frames of one left-to-right scan of the received bytes (decoded), call by call",
-                "expected": f"{len(want)} results; #{k}: " + (want[k][:300] if k < len(want) else "none"),
-                "observed": f"{len(got)} results; #{k}: " + (got[k][:300] if k < len(got) else "none"),
-                "layout": layout_str(layout), "stream_len": len(b"".join(reads)),
-                "reads": ",".join(hexs(c) for c in reads)[:4000], "case": pub_line(layout, reads)}
-    return None
+        stream = b"".join(reads)
+        v = {"key": "public-level", "what": "CommHandler.stream_data() over a scripted link does not return the STREAM "
+             "frames of one left-to-right scan of the received bytes (decoded), call by call (" + CONSUMER_TEXT[consumer] + ")",
+             "expected": f"{len(want)} results; #{k}: " + (want[k][:300] if k < len(want) else "none"),
+             "observed": f"{len(got)} results; #{k}: " + (got[k][:300] if k < len(got) else "none"),
+             "layout": layout_str(layout), "stream_len": len(stream), "frames_on_the_line": describe(stream),
+             "reads_shape": reads_shape(reads),
+             "reads": ",".join(hexs(c) for c in reads)[:4000], "case": pub_line(layout, reads, consumer)}
+        v["observed"] += f" ({info.get('virtual_s')} virtual seconds after the link started to deliver)"
+        if info.get("timed_out"):
+            v["observed"] += "; " + info["timed_out"]
+        if info.get("disconnect"):
+            v["disconnect"] = info["disconnect"]
+        return v, got, seen, carry
+    return None, got, seen, carry
+
+
+def route_expected(stream):
+    """(response queue, stream queue) for the received bytes, device known: the frames of the reference scan in order,
+    STREAM frames on the stream queue, every other frame on the response queue"""
+    want = ref_scan(stream)
+    return [f for f in want if f[0] != 1], [f for f in want if f[0] == 1]
+
+
+def pubq_real(layout, reads):
+    info = {}
+    _, seen, carry = pub_session(layout, reads, info=info, consumer="none")
+    return info.get("queues", ([], [])), seen, carry, info
+
+
+def pubq_oracle(layout, reads):
+    return pubq_judge(layout, reads)[0]
+
+
+def pubq_judge(layout, reads):
+    """queue level, receive thread running, nobody consuming: once the link has handed over all reads, the response
+    queue and the stream queue hold the frames of the reference scan, each exactly once and in order (the observable of
+    the `reasm route` cases, for streams of hundreds of frames).
+    Returns (violation | None, (response queue, stream queue), reads seen by the client, carry-over)."""
+    stream = b"".join(reads)
+    wa, wb = route_expected(stream)
+    try:
+        (a, b), seen, carry, info = pubq_real(layout, reads)
+    except Exception as e:      # noqa: BLE001
+        if sim_verdict(e) and (wa or wb):
+            return stuck_violation(e, layout, reads, "none", len(wa) + len(wb)), None, [], b""
+        raise
+    if carry:
+        return None, (a, b), seen, carry
+    if (a, b) != (wa, wb):
+        def summ(q):
+            return f"{len(q)} frames"
+
+        def first_diff(g_, w_):
+            k = next((i for i, (x, y) in enumerate(zip(g_, w_)) if x != y), min(len(g_), len(w_)))
+            return k, (f"{g_[k][0]}:{hexs(g_[k][1])[:40]}" if k < len(g_) else "none"), \
+                (f"{w_[k][0]}:{hexs(w_[k][1])[:40]}" if k < len(w_) else "none")
+        which, g_, w_ = ("response queue", a, wa) if a != wa else ("stream queue", b, wb)
+        k, gk, wk = first_diff(g_, w_)
+        v = {"key": "queues-long-run", "what": "with the receive thread running and nobody taking frames off, the frames "
+             "waiting on the response / stream queue after the link has gone quiet are not the frames of one left-to-right "
+             "scan of the received bytes, each once and in order",
+             "expected": f"response queue {summ(wa)}, stream queue {summ(wb)}; {which} #{k}: {wk}",
+             "observed": f"response queue {summ(a)}, stream queue {summ(b)}; {which} #{k}: {gk}",
+             "layout": layout_str(layout), "stream_len": len(stream), "frames_on_the_line": describe(stream),
+             "reads_shape": reads_shape(reads),
+             "reads": ",".join(hexs(c) for c in reads)[:4000], "case": pub_line(layout, reads, "none")}
+        v["observed"] += f" ({info.get('virtual_s')} virtual seconds after the link started to deliver)"
+        if info.get("timed_out"):
+            v["observed"] += "; " + info["timed_out"]
+        if info.get("disconnect"):
+            v["disconnect"] = info["disconnect"]
+        return v, (a, b), seen, carry
+    return None, (a, b), seen, carry
+
+
+# ---- long runs (REVIEW R4-A-A1 / R4-B-H1): hundreds of control frames nobody asked for between stream frames; hundreds of
+# stream frames before anybody polls.  Run lengths sit around the sizes a bounded queue might have.
+RUN_LENGTHS = [15, 16, 17, 31, 33, 63, 64, 65, 100, 127, 129, 255, 257, 300]
+LONG_RUNS = [511, 513, 600, 1025, 1100]
+LONG_LAYOUT = [(7, 1, 0), (4, 2, 1)]
+
+
+def ctl_frame(rng, kind=None):
+    kind = rng.choice("aaaci") if kind is None else kind
+    if kind == "a":
+        return ref_frame(4, rng.choice([bytes(4), b"\xff\xff\xff\xff", rng.randbytes(4)]))
+    if kind == "c":
+        return ref_frame(2, bytes([rng.randrange(1, 9), rng.randrange(8), 0]))
+    return ref_frame(3, bytes([rng.randrange(2), rng.randrange(2, 12), rng.randrange(1, 4), rng.randrange(2), 0]) + b"ch" + bytes([0x30 + rng.randrange(10)]))
+
+
+def stream_frame(rng, layout, ns=1):
+    import streamglue as sg
+    import streamgen as gen
+    smps = [gen.gen_sample(rng, layout, {}, rng.randrange(len(layout))) for _ in range(ns)]
+    return ref_frame(1, sg.ref_wire(layout, {}, smps, flags=rng.choice([0, 0, 1])))
+
+
+def long_chunking(rng, stream, frames, mode):
+    if mode == 0:
+        return [stream]
+    if mode == 1:
+        return cut(stream, 64)
+    if mode == 2:
+        return [x for f in frames for x in (f, b"")][:4000] if len(frames) <= 2000 else cut(stream, 64)   # a frame per read, idle reads between
+    if mode == 3:
+        return cut(stream, 4096)
+    return cut(stream, rng.choice([7, 100, 1000]))
+
+
+def long_case(rng, k):
+    """(consumer, layout, reads, label) — session k of the long-run family.  The first ones are fixed shapes (smallest
+    first, so that the failing input reported is the simplest one), the rest random mixes."""
+    layout = LONG_LAYOUT
+    fixed = [("poll", [("a", 17), ("s", 1)], 0),                       # the reviewer's example: 17 ACK frames, then a stream frame
+             ("none", [("s", 65), ("a", 1)], 0),
+             ("lazy", [("s", 600), ("a", 1), ("s", 3)], 1),
+             ("poll", [("a", 300), ("s", 2), ("c", 200), ("s", 1), ("i", 100), ("s", 3)], 2),
+             ("none", [("s", 1100), ("a", 20), ("s", 5)], 3)]
+    if k < len(fixed):
+        consumer, shape, mode = fixed[k]
+    else:
+        consumer = ["poll", "none", "lazy"][k % 3]
+        shape = []
+        for _ in range(rng.randrange(2, 6)):
+            if consumer == "poll":
+                shape.append((rng.choice("aaci") if rng.random() < 0.7 else "m", rng.choice(RUN_LENGTHS)))
+                shape.append(("s", rng.choice([1, 1, 2, 5])))
+            else:
+                shape.append(("s", rng.choice(RUN_LENGTHS + LONG_RUNS[:3]) if rng.random() < 0.7 else rng.choice(LONG_RUNS)))
+                shape.append((rng.choice("acim"), rng.choice([1, 2, 17, 40])))
+            if sum(n for _, n in shape) > 1500:
+                break
+        mode = rng.randrange(5)
+    frames = []
+    for kind, cnt in shape:
+        for _ in range(cnt):
+            frames.append(stream_frame(rng, layout, rng.choice([1, 1, 2])) if kind == "s" else ctl_frame(rng, None if kind == "m" else kind))
+    stream = b"".join(frames)
+    return consumer, layout, long_chunking(rng, stream, frames, mode), "+".join(f"{n}{kd}" for kd, n in shape)
 
 
 def reconnect_scenarios(rng):
@@ -485,8 +738,35 @@ class C03(Prop):
             "reads / 1500-byte reads with idle reads / splits inside the header, at its end, inside the CRC / byte-wise; "
             "decodable bogus headers (declared 40 and 65535 bytes) in front of valid frames, with the awaited bytes supplied "
             "later or not; public level: stream_data() of a connected CommHandler over a scripted link vs the model "
-            "(Reasm.run + Route + Stream.decode) and vs the samples encoded; distinct = distinct (stream, chunking); "
+            "(Reasm.run + Route + Stream.decode) and vs the samples encoded; long runs with the real receive thread: 15..300 "
+            "control frames nobody asks for (ACK / CMNINFO / CHINFO) between stream frames while the application polls "
+            "stream_data(); 63..1100 stream frames before the application starts polling; the same with nobody consuming, "
+            "judged on the two queues (run lengths around 16/32/64/128/256/512/1024; one read, 64-byte / 4096-byte reads, a "
+            "frame per read with idle reads); distinct = distinct (stream, chunking); "
             "non-trivial = stream containing at least one valid frame and at least 2 chunks")
+
+    assumptions = [
+        "accepted reading of 'accepts a complete valid frame and continues after it, and otherwise advances one byte' / 'a valid "
+        "frame that follows line noise or a cut-off frame is not lost' — MODULO AWAITED BYTES (REVIEW R4-A-A7): at a start byte "
+        "whose header decodes and declares more bytes than have arrived so far the scan (specification `Reasm.scan`, oracle "
+        "`ref_scan`, and the code) WAITS instead of advancing; it advances one byte only once the declared number of bytes is in "
+        "and the window is rejected. Reviewer's example: the first 10 bytes of a 40-byte frame (55 28 00 01 + 6 payload bytes) "
+        "followed by the valid frame 55 07 00 05 01 88 9c and idle reads deliver nothing, under every chunking, until 40 bytes "
+        "are in (17 and 38 bytes: nothing; with the 40th byte: every frame behind the cut-off one, none lost) — the literal "
+        "scan of the text would deliver [(5, 01)] at once. Regression corpus harness/corpus/C03/f4_awaited_bytes.txt; theorems "
+        "stalled_until / delivery_delay_bounded / valid_frame_not_lost (Props/C03.lean) state exactly what holds: delivery is "
+        "delayed by at most the declared length (65535 bytes at most), nothing is lost, chunking independence is unconditional",
+        "the frames delivered are a function of the bytes received SO FAR; a session is judged after the link has gone quiet",
+        "public / queue level sessions run the real receive thread under the virtual-time runtime (harness/vsim.py preserves "
+        "queue (maxsize included) / lock / event / thread semantics). The property states no time; a session is judged when the "
+        "link has handed over all scripted reads and stream_data() has then returned None twice in a row (2 virtual seconds of "
+        "silence; consumers 'lazy' / 'none': 1 virtual second after the last read was handed over), or when 60 + 0.02 x reads "
+        "virtual seconds have passed with reads still unread (the receive thread no longer reads): a frame not out by then is "
+        "reported as lost",
+        "queue level without a consumer (`pubq`): the response and the stream queue are expected to take every frame of the scan "
+        "without anybody taking frames off (the observable 'frames placed on the client's response/stream queues' of the `reasm "
+        "route` cases, for hundreds of frames): a queue that blocks or drops when full is a violation at this level",
+        "crcmod validated against the Lean CRC (C01), not verified; the oracle uses its own table-driven CRC-16/XMODEM"]
 
     def line(self, chunks):
         return "reasm run " + ",".join(hexs(c) for c in chunks)
@@ -567,15 +847,16 @@ class C03(Prop):
 
     _per_key: dict = {}
     _first_hit = None
+    _pub_stuck = False
 
     def _oracle(self, line):
         t = line.split(" ")
         if t[0] == "reconnect":
             layout = [tuple(int(x) for x in c.split(":")) for c in t[1].split(",")]
             return reconnect_oracle("replay", unhex(t[2]), layout, [unhex(c) for c in t[3].split(",")])
-        if t[0] == "pub":
+        if t[0] in PUB_OPS:
             layout = [tuple(int(x) for x in c.split(":")) for c in t[1].split(",")]
-            return pub_oracle(layout, [unhex(c) for c in t[2].split(",")])
+            return pub_oracle(layout, [unhex(c) for c in t[2].split(",")], PUB_OPS[t[0]])
         if t[1] == "route":
             chunks = [unhex(c) for c in t[3].split(",")]
             a, b = run_real_routed(chunks, t[2] == "1")
@@ -587,10 +868,17 @@ class C03(Prop):
                         "expected": fstr(wa) + " / " + fstr(wb), "observed": fstr(a) + " / " + fstr(b)}
             return None
         chunks = [unhex(c) for c in line.split(" ")[2].split(",")]
-        got = run_real(chunks)
+        stall = []
+        got = run_real(chunks, stall=stall)
         want = ref_scan(b"".join(chunks))
         if got != want:
             stream = b"".join(chunks)
+            if stall:
+                return {"key": "receiver-stalled", "what": "the receive body stopped asking the link for bytes (a call reads "
+                        "nothing, consumes nothing, delivers nothing — and so does every later call) although "
+                        f"{stall[0]} of the {len(chunks)} scripted reads were still to come; the frames in them are lost",
+                        "expected": fstr(want)[:2000], "observed": fstr(got)[:2000], "stream": hexs(stream)[:4000],
+                        "chunk_sizes": [len(c) for c in chunks][:40]}
             longest = max([len(d) + 6 for _, d in want] + [0])
             if longest >= 255:
                 # long frames get their own key, so that a failing input with a long frame is reported next to one
@@ -663,25 +951,71 @@ class C03(Prop):
                 # the bytes of a damaged frame happen to contain a decodable header: the reference scan (the property)
                 # decides what is delivered, not the generator's intention
                 stats["ambiguous_streams"] += 1
-            got, seen, carry = pub_real(layout, reads)
+            v, got, seen, carry = pub_judge(layout, reads)
             stats["sessions"] += 1
             stats["reads"] += len(reads)
             stats["bytes"] += len(stream)
             stats["stream_frames"] += len(exp)
             stats["longest_frame"] = max([stats["longest_frame"]] + [len(p_) + 6 for p_, _ in frames])
-            want = [w for _, w in exp]
             if carry:
                 raise RuntimeError(f"harness: carry-over buffer not empty after the handshake: {carry.hex()}")
-            if got != want:
-                v = pub_oracle(layout, reads)
-                if v:
-                    viol.append(v)
-                    self._per_key["public-level"] = self._per_key.get("public-level", 0) + 1
-                    if len(viol) >= 3:
-                        break
-                    continue
+            if v:
+                viol.append(v)
+                self._per_key["public-level"] = self._per_key.get("public-level", 0) + 1
+                if v.get("stuck"):
+                    self._pub_stuck = True      # every further session would cost the simulator's whole spin budget
+                if len(viol) >= 3 or self._pub_stuck:
+                    break
+                continue
             sessions.append((layout, seen, got))
         ev["coverage"]["public_level"] = stats
+        # long runs: control frames nobody asks for between stream frames; hundreds of stream frames before anybody polls
+        nl = int(os.environ.get("VERIF_C03_LONG", "24" if T else "8"))
+        lstats = {"sessions": 0, "frames": 0, "bytes": 0, "reads": 0, "by_consumer": {}, "shapes": []}
+        qsessions = []
+        seen_keys = set()
+        for k in range(nl if not self._pub_stuck else 0):
+            consumer, layout, reads, label = long_case(rng, k)
+            stream = b"".join(reads)
+            t_k = time.time()
+            lstats["sessions"] += 1
+            lstats["frames"] += len(ref_scan(stream))
+            lstats["bytes"] += len(stream)
+            lstats["reads"] += len(reads)
+            lstats["by_consumer"][consumer] = lstats["by_consumer"].get(consumer, 0) + 1
+            if len(lstats["shapes"]) < 8:
+                lstats["shapes"].append(consumer + ":" + label)
+            v, got, seen, carry = pub_judge(layout, reads, consumer)
+            if carry:
+                raise RuntimeError(f"harness: carry-over buffer not empty after the handshake: {carry.hex()}")
+            if v:
+                if (v["key"], consumer) not in seen_keys:
+                    seen_keys.add((v["key"], consumer))
+                    if v["key"] == "public-level":
+                        if self._per_key.get("public-level"):
+                            v["key"] = "public-level-" + consumer     # a second replay, beside the one of the short sessions
+                        self._per_key["public-level"] = self._per_key.get("public-level", 0) + 1
+                    viol.append(v)
+                if v.get("stuck"):
+                    self._pub_stuck = True
+                    break
+                continue
+            if consumer == "none":
+                qsessions.append((seen, fstr(got[0]) + " / " + fstr(got[1])))
+            else:
+                sessions.append((layout, seen, got))
+            lstats.setdefault("wall_s", []).append(round(time.time() - t_k, 2))
+            if len(viol) >= 4:
+                break
+        ev["coverage"]["public_level_long_runs"] = lstats
+        if qsessions and os.path.exists(DRIVER):
+            routed = driver_run(["reasm route 1 " + (",".join(hexs(c) for c in seen) or "-") for seen, _ in qsessions])
+            for (seen, real), m in zip(qsessions, routed):
+                if real != m:
+                    raise RuntimeError("queue-level correspondence (receive thread running, no consumer): the queues differ "
+                                       f"from the model (Reasm.run + Route): real {real[:200]} model {m[:200]} "
+                                       f"case reasm route 1 {(','.join(hexs(c) for c in seen))[:400]}")
+            lstats["model_compared_queues"] = len(qsessions)
         # model side: the reads the client saw -> Reasm.run -> Route.queues (device known) -> Stream.decode per frame
         if sessions and os.path.exists(DRIVER):
             routed = driver_run(["reasm route 1 " + (",".join(hexs(c) for c in seen) or "-") for _, seen, _ in sessions])
@@ -709,14 +1043,14 @@ class C03(Prop):
 
     def deep_search(self, rng):
         out = []
-        if self._per_key.get("public-level"):
+        if self._per_key.get("public-level") or self._pub_stuck:
             return out          # a public-level failing input has been reported already
         for k in range(40):
             layout, frames, stream, reads = pub_case(rng, big=(k % 2 == 0))
             v = pub_oracle(layout, reads)
             if v:
                 out.append(v)
-                if len(out) >= 2:
+                if len(out) >= 2 or v.get("stuck"):
                     break
         return out
 
